@@ -20,12 +20,17 @@ P_InboundExact(o) == \A c \in CP(o) : c.conn => (c.cpaused <=> (c.wantPause # <<
 \* a pull producer is driven only while the connection is writable
 P_PullObeys(o) == o.pull.initial = 0 /\ o.pull.afterUse > 0 /\ o.pull.whilePaused = 0 /\ o.pull.resumedAgain > 0 /\ o.pull.afterUnregister = 0
 P_NoInternal(o) == o.internal = <<>>
+\* the inbound half on the real DilatedConnectionProtocol: a subchannel application's pause stops the reading of the peer
+\* connection (nothing arrives while paused), its resume restarts it, a pause in force carries over to the replacement
+\* connection, and none of these calls raises
+P_InboundReal(o) == /\ o.inboundReal.raised = <<>> /\ o.inboundReal.gotWhilePaused = 0 /\ o.inboundReal.gotAfterResume = 1
+                    /\ o.inboundReal.pausedAfterReconnect /\ o.inboundReal.gotAfterSecondResume = 1
 
 VARIABLE k
 Init == k = 0
 Next == k < Len(All) /\ k' = k + 1
         /\ PrintT(<<"OBS", All[k'].tid, <<P_AllPausedWhenPaused(All[k']), P_NoConnMeansPaused(All[k']), P_NoResumeWhilePaused(All[k']),
                                           P_AllResumedAfterDrain(All[k']), P_ThreeSets(All[k']), P_InboundExact(All[k']),
-                                          P_PullObeys(All[k']), P_NoInternal(All[k'])>>>>)
+                                          P_PullObeys(All[k']), P_NoInternal(All[k']), P_InboundReal(All[k'])>>>>)
 Spec == Init /\ [][Next]_k
 ====
